@@ -164,11 +164,17 @@ def apply_plan(full, info, plan, conc):
         elif kind == 'BadClass':
             value = 'A' * max(e['mn'], 1)
         elif kind == 'BadDate':
-            value = '20041301'
+            # impossible month / day / day of that month, rotating with the position of the fault
+            value = ['20041301', '20040132', '20040230', '20030229', '20040431', '20040010'][(si + ei + ci) % 6]
             if e['mn'] > 8:
                 return None
         elif kind == 'BadTime':
-            value = '2500' if e['mn'] <= 4 else '250000'[:e['mn']]
+            # impossible hour / minute / second, at every length the element admits, rotating with the position of the fault
+            cands = [v for v in ('2500', '1260', '250000', '126000', '120060', '1200600', '12006000', '12600000', '120075')
+                     if max(e['mn'], 4) <= len(v) <= e['mx']]
+            if not cands:
+                return None
+            value = cands[(si + ei + ci) % len(cands)]
         elif kind == 'MissingRequired':
             value = ''
         elif kind == 'NotUsedPresent':
